@@ -13,5 +13,7 @@ def main():
     if a.replay:
         import replay
         sys.exit(replay.main(a.replay))
-    sys.exit(framework.main(a.prop.lower(), a.tier))
+    rc = framework.main(a.prop.lower(), a.tier)
+    sys.stdout.flush(); sys.stderr.flush()
+    os._exit(rc)          # (no interpreter tear-down: worker queues that were cut by the budget must not be able to block the exit)
 main()
